@@ -26,7 +26,7 @@ def run(ctx):
             'Q(value,u) in all constructor forms, Create<u> in all overloads, Value(u2), StaticValue<u>, and the numbers inside '
             'Print/JSON/XML/YAML(u2) for u2 in {u, next(u), standard}%s compared slot by slot with the scalar PhQ::Convert of each '
             'component (<= 1 ulp); construct-in-u/read-in-u round trip (<= 16 ulp of the affine scale). Free functions per unit type: '
-            'Convert / ConvertInPlace on scalar, array<1,2,3,6,9,17>, vector<0,1,5,64>, PlanarVector, Vector, SymmetricDyad, Dyad for '
+            'Convert / ConvertInPlace on scalar, array<1,2,3,6,9,17>, vector<0,1,5,64,1000,1024,4096>, PlanarVector, Vector, SymmetricDyad, Dyad for '
             'unit pairs {(u,u), (u,next u), (u,std), (std,u)}%s and ConvertStatically on all container forms for (u,std), (std,u), '
             '(u,u): each slot equals the scalar conversion of that slot, copying forms leave the argument unchanged, in-place == copying, '
             'unit to itself is the identity. Slot values are pairwise distinct (+-p_i/8+2^-20). distinct_nontrivial = comparisons '
